@@ -6,7 +6,9 @@ genesis_once / genesis_once_entrance (an installed chain rejects every further i
 trust_root_stable and trust_root_is_first for all histories of installations interleaved with header syncs.
 
 Tie: correspondence stream `genesis` — the real header_sync entrance on a real native service, for 20 of the 21
-routers: install with two different valid genesis records and a malformed one, by operator / non-operator signers,
+routers: install with four different valid genesis records (two ordinary, one at height 0, one at an extreme height with
+unusual content: long chain id, odd hash length, empty / single-member sets — each probed for acceptance on a fresh
+chain first), always followed by a different one and by the same one again, and a malformed one, by operator / non-operator signers,
 before/after registration, on two chains, interleaved with (rejected) header syncs; verdict class and "storage
 changed" compared with the model for every transaction. harmony cannot be driven in the sandbox (its BLS C library is
 missing; a stand-in is linked) and is covered by the static scan only.
@@ -61,6 +63,10 @@ def run(ctx):
     if js is not None:
         facts = json.loads(js)["installers"]
         ctx.cov["genesis_guards_static"] = facts
+        # advisory (not a failure): guards that look at a decoded value and count an unreadable record as absent — safe
+        # only while every record the installer writes can be read back (the dynamic stream installs unusual first
+        # genesis records for exactly that reason)
+        ctx.cov["guards_treating_unreadable_record_as_absent"] = [f["router"] for f in facts if f.get("guard_subject") == "decoded-error-ignored"]
         if len(facts) != 21:
             ctx.violate("C19:static-router-count:%d" % len(facts), "the static scan found %d SyncGenesisHeader methods, the model table has 21" % len(facts),
                         {"kind": "obligation", "installers": [f["router"] for f in facts],
